@@ -19,7 +19,7 @@ RULE = ("cases = (configuration, operation, size before the call, count / range 
 
 
 def build():
-    key = C.tree_hash(extra=CXX + "lim")
+    key = C.sha_files([C.HEADER] + [os.path.join(C.HARNESS, n) for n in ("core.hpp", "elem.hpp", "alloc.hpp", "lim_main.cpp")], CXX + "lim")
     with C.BuildDir("lim", key) as bd:
         exes = {"dbg": bd.file("lim"), "ndebug": bd.file("lim_nd")}
         if bd.done("lim") and all(os.path.exists(e) for e in exes.values()):
